@@ -71,7 +71,7 @@ G0 == [tr |-> -1, brought |-> 0, taken |-> 0, banks |-> <<>>, bankIds |-> {}, la
        missed |-> <<>>, missedIds |-> {}, ext |-> FALSE, closedBetween |-> FALSE, lastStatus |-> "none",
        cnt |-> <<>>, cntIds |-> {}, actEvents |-> <<>>, spyCalls |-> <<>>, inGate |-> "", blindSet |-> <<>>, blindSetInGate |-> FALSE,
        leftSince |-> {}, faults |-> 0, lastUpd |-> 0, kfMidLeave |-> FALSE,
-       withholdSt |-> <<>>, settledSt |-> <<>>, openSt |-> <<>>, callQ |-> <<>>, pubH |-> <<>>, autoFails |-> 0, errEvents |-> 0, afterFire |-> FALSE, fireSt |-> <<>>]
+       withholdSt |-> <<>>, settledSt |-> <<>>, openSt |-> <<>>, callQ |-> <<>>, pubH |-> <<>>, nospy |-> FALSE, autoFails |-> 0, errEvents |-> 0, afterFire |-> FALSE, fireSt |-> <<>>]
 
 Fn(f, ids, x, d) == IF x \in ids THEN f[x] ELSE d
 ZeroCnt == [at |-> 0, ct |-> 0, kt |-> 0, fold |-> FALSE, fr |-> ""]
@@ -81,7 +81,7 @@ JoinChips(joins) == SeqSum([i \in 1..Len(joins) |-> joins[i][3]])
 
 Upd(gg, k) ==
   LET t == Trace[k] IN
-  IF t.ev = "scenario" THEN [G0 EXCEPT !.tr = t.tr]
+  IF t.ev = "scenario" THEN [G0 EXCEPT !.tr = t.tr, !.nospy = (t.a.kind = "manager")]
   ELSE
   LET st == t.st
       g1 == \* ---- chips brought in / taken out (C01), from call returns
@@ -221,6 +221,13 @@ C02_openList(t) ==
     /\ Len(ids) >= 1 => [i \in 1..Len(ids) |-> P(st, ids[i]).seat] \in Rotations(SortedSeats({P(st, id).seat : id \in PartIds(st)}))
 C02_stable(t, gg) ==
   (Trusty(t) /\ gg.handLive /\ ~IsOpenSnap(t) /\ t.st.gc = gg.lastGc /\ t.st.status \in HandStatuses) => GpiIds(t.st) = gg.handIds
+\* ---------------------------------------------------------------- C17 (calls routed through the manager)
+MgrLines == {"mgrprobe", "mgrclose", "mgrbystander"}
+C17_bystandersUntouched(t) == (t.by # "") => t.by = "same"
+C17_notFound(t) == (t.ev = "mgrprobe") => t.res = "ErrManagerTableNotFound"
+C17_closeRemoves(t) == (t.ev = "mgrclose") => t.res = "ok"
+C17_bystandersRemain(t) == (t.ev = "mgrbystander") => t.res = "ok"
+
 C02_stack(t, gg) ==
   (t.ev = "spy" /\ t.a.kind = "create" /\ t.res = "ok") =>
     /\ Len(t.a.joins) = Len(gg.handIds)
@@ -365,7 +372,7 @@ C10_published(t, gg) ==
   (t.ev \in ActEvs /\ t.res = "ok" /\ Len(t.pre) = 1 /\ t.a.id \in Ids(t.pre[1])) =>
     IF t.a.kind \in TurnKinds
     THEN /\ Len(TurnEvents(gg)) = 1 /\ MatchingEvent(TurnEvents(gg)[1], t)
-         /\ TurnCalls(gg) = << <<t.a.kind, "ok", IF t.a.kind \in {"bet", "raise"} THEN t.a.amt ELSE 0>> >>
+         /\ (gg.nospy \/ TurnCalls(gg) = << <<t.a.kind, "ok", IF t.a.kind \in {"bet", "raise"} THEN t.a.amt ELSE 0>> >>)
          /\ t.st.la # <<>> => (t.st.la[1].id = t.a.id /\ t.st.la[1].action = t.a.kind /\ t.st.la[1].seat = P(t.pre[1], t.a.id).seat
                                /\ t.st.la[1].gc = t.pre[1].gc /\ t.st.la[1].round = H(t.pre[1]).round)
     ELSE /\ TurnEvents(gg) = <<>> /\ TurnCalls(gg) = <<>>
@@ -406,7 +413,7 @@ HasPubStep(t, gg) == FirstPub(t, gg) /\ gg.callQ # <<>> /\ ~gg.kfMidLeave /\ t.s
 C10_appliedOnce(t, gg) == (HasPubStep(t, gg) /\ gg.callQ[1].kind \in TurnKinds) => PubStep(t, gg)
 C11_autoStep(t, gg) == (HasPubStep(t, gg) /\ gg.callQ[1].kind \in {"readyall", "ante", "blinds", "next"}) => PubStep(t, gg)
 C02_handCreated(t, gg) == (HasPubStep(t, gg) /\ gg.callQ[1].kind = "create") => PubStep(t, gg)
-C11_publishedInOrder(t, gg) == FirstPub(t, gg) => gg.callQ # <<>>
+C11_publishedInOrder(t, gg) == (FirstPub(t, gg) /\ ~gg.nospy) => gg.callQ # <<>>
 
 \* ---------------------------------------------------------------- C13 (failing game backend)
 AutoKinds == {"readyall", "ante", "blinds", "next", "create"}
@@ -475,6 +482,10 @@ CheckLine(k, gg) ==
       midOp == gg.inGate \in {"members.add.mid", "members.remove.mid"}   \* another goroutine is parked in the middle of a membership operation
   IN
   t.ev = "scenario" \/
+  (t.ev \in MgrLines /\ Clause("C17_notFound", C17_notFound(t), "", k) /\ Clause("C17_closeRemoves", C17_closeRemoves(t), "", k)
+                    /\ Clause("C17_bystandersRemain", C17_bystandersRemain(t), "", k) /\ Clause("C17_bystandersUntouched", C17_bystandersUntouched(t), "", k)) \/
+  /\ t.ev \notin MgrLines
+  /\ Clause("C17_bystandersUntouched", C17_bystandersUntouched(t), "", k)
   /\ (midOp \/ t.a.note = "background" \/ MemberConforms(t) \/ PrintT(<<"DRIFT", k, t.ev, t.res>>))
   /\ Clause("C03_noPanic", t.res # "panic" /\ st.status # "projection-panic" /\ t.ev # "crash", kfmid, k)
   /\ ok =>
